@@ -477,7 +477,9 @@ func run(r *vk.Runner) {
 		panic(err)
 	}
 	codec := j5codec.NewCodec()
-	depths := []int{10, 100, 1000, 10000}
+	// 2,000,000 levels are a document of 10-40 MB: deep enough that recursion proportional to the
+	// nesting exhausts any stack
+	depths := []int{10, 100, 1000, 10000, 2000000}
 	if !r.Quick() {
 		depths = append(depths, 100000)
 	}
